@@ -307,13 +307,24 @@ func (r *simRing) joinLocked(id, via uint64) (*ringsim.Member, error) {
 func (r *simRing) rejoinLocked(old *ringsim.Member, via uint64) (*ringsim.Member, error) {
 	m := r.net.AddWithKV(old.ID, old.KV.Inner())
 	memberMapMu.Lock()
+	r.retired = append(r.retired, old)
 	r.members[old.ID] = m
 	memberMapMu.Unlock()
 	err := m.Node.Join(r.net.Proxy(old.ID, via))
 	m.JoinErr = err
 	if err == nil {
 		m.Joined.Store(true)
+		return m, nil
 	}
+	// the restarted process could not join and gives up (the server binary exits on a failed
+	// join): it must not linger as a reachable node that is "not running". The departed
+	// incarnation is what the rest of the ring keeps seeing.
+	m.Stop()
+	memberMapMu.Lock()
+	r.retired = append(r.retired, m)
+	r.members[old.ID] = old
+	memberMapMu.Unlock()
+	r.net.Restore(old)
 	return m, err
 }
 
